@@ -35,14 +35,20 @@ try:
         wd = os.path.join(tmp, d)
         for f in demo:
             shutil.copy(os.path.join(dst, f), wd)
-        if "demo.c" in demo:
+        for f in os.listdir(dst):
+            if f not in ("patch.diff", "meta.json", "notes.md"):
+                shutil.copy(os.path.join(dst, f), wd)
+        if "demo.sh" in demo:
+            x = subprocess.run(["bash", "demo.sh"], cwd=wd, capture_output=True, text=True, timeout=900, errors="replace")
+        elif "demo.c" in demo:
             c = subprocess.run("gcc -w -I src demo.c src/*.c -o demo_bin -lpthread", shell=True, cwd=wd, capture_output=True, text=True)
             if c.returncode:
                 res[d] = ("compile-failed", c.stderr[-400:])
                 continue
-            x = subprocess.run(["./demo_bin"], cwd=wd, capture_output=True, text=True, timeout=600, errors="replace")
+            x = subprocess.run(["./demo_bin"], cwd=wd, capture_output=True, text=True, timeout=900, errors="replace")
         else:
-            x = subprocess.run(["bash", demo[0]], cwd=wd, capture_output=True, text=True, timeout=600, errors="replace")
+            res[d] = ("no-demo", "")
+            continue
         res[d] = (x.returncode, (x.stdout + x.stderr)[-300:])
     meta["demo_exit_unchanged"] = res.get("orig", [None])[0]
     meta["demo_exit_with_patch"] = res.get("mut", [None])[0]
